@@ -322,8 +322,44 @@ def _list_domain(node, env):
     return None
 
 
+def _encoding_eq(ctx):
+    """StreamEncoding.__eq__ decides whether a source can be copied through without transcoding: whenever it answers True, byte
+    order, sample width, signedness and channel layout have been compared equal (on that path or in the returned conjunction)"""
+    fn = ctx.fn("smpl_extract/data_streams.py", "StreamEncoding.__eq__", "P4")
+    n_true = 0
+    ok, det = True, ""
+    for p in run_paths(ctx, fn, rule="P4"):
+        if p.end != "return" or p.ret is None:
+            continue
+        rk = p.ret.key()
+        if rk == "0":
+            continue
+        n_true += 1
+        true_facts, false_facts = [], []
+        for c, t, _ in p.conds:
+            neg, x = False, c
+            while x.startswith("not(") and x.endswith(")"):
+                x, neg = x[4:-1], not neg
+            (true_facts if t != neg else false_facts).append(x)
+        if rk != "1":
+            true_facts.append(rk)
+        conj = [f for f in true_facts if "or(" not in f and "any(" not in f]
+        for fld in ("endianess", "sample_width", "is_signed"):
+            pat_eq = re.compile(rf"-1\*[^ ]*\.{fld} \+ self\.{fld} == 0")
+            pat_ne = re.compile(rf"^-1\*[^ ]*\.{fld} \+ self\.{fld} != 0$")
+            if not (any(pat_eq.search(f) for f in conj) or any(pat_ne.match(f) for f in false_facts)):
+                ok, det = False, f"a path answers `equal` without having compared {fld} (under [{p.cond_key()[:120]}])"
+        chan_eq = re.compile(r"-1\*[^ ]*\.(is_interleaved|num_interleaved_channels) \+ self\.\1 == 0")
+        chan_ne = re.compile(r"^-1\*[^ ]*\.(is_interleaved|num_interleaved_channels) \+ self\.\1 != 0$")
+        if not (any(chan_eq.search(f) for f in conj) or any(chan_ne.match(f) for f in false_facts)):
+            ok, det = False, "a path answers `equal` without having compared the channel layout"
+    ok = ok and n_true >= 1
+    ctx.ob("P4", fn, "two encodings are equal only if byte order, sample width, signedness and channel layout are all equal", ok, det, inst="encoding-eq")
+
+
 def rule_P4(ctx):
     """parallel iteration (zip) only combines lists of the same index domain (per stream / per channel)"""
+    _encoding_eq(ctx)
     m = ctx.prog.module(TR)
     seeds = {"data_streams": "STREAM", "streams": "STREAM", "channels": "CHANNEL", "buffer_sizes": "STREAM"}
     n = 0
